@@ -126,3 +126,130 @@ def disagreement(ddp, model, p, cfg, minimal=False):
     if rr.cls == "compile-rejected":
         return None
     return compare(o, so, rr)
+
+
+# ---------------------------------------------------------------- shared judging
+EXPR_KINDS = ("int", "float", "bool", "char", "text", "var", "un", "bin", "ter", "cast", "typecheck", "default",
+              "list", "listrep", "call", "field", "struct")
+
+
+def node_stats(p, acc=None):
+    """histogram of statement / expression kinds of a program (input distribution for the evidence)"""
+    from collections import Counter
+    acc = acc if acc is not None else Counter()
+
+    def ex(e):
+        if not isinstance(e, tuple) or not e:
+            return
+        k = e[0]
+        if k in ("un", "bin", "ter"):
+            acc["expr:" + k + ":" + e[1]] += 1
+        else:
+            acc["expr:" + k] += 1
+        for x in e[1:]:
+            if isinstance(x, tuple) and x and isinstance(x[0], str) and x[0] in EXPR_KINDS:
+                ex(x)
+            elif isinstance(x, list):
+                for y in x:
+                    if isinstance(y, tuple) and len(y) == 2 and isinstance(y[0], str) and isinstance(y[1], tuple):
+                        ex(y[1])
+                    elif isinstance(y, tuple):
+                        ex(y)
+
+    def st(s):
+        acc["stmt:" + s[0]] += 1
+        for x in s[1:]:
+            if isinstance(x, list):
+                for y in x:
+                    st(y)
+            elif isinstance(x, tuple):
+                ex(x)
+
+    for s in p["globals"] + p["main"]:
+        st(s)
+    for f in p["funcs"]:
+        acc["func"] += 1
+        for _, _, r in f["params"]:
+            acc["param:ref" if r else "param:value"] += 1
+        for s in f["body"]:
+            st(s)
+    acc["struct"] += len(p["structs"])
+    return acc
+
+
+def _fingerprint(p):
+    import hashlib
+    return hashlib.sha256(gen.sx_program(p).encode()).hexdigest()[:10]
+
+
+def judge_programs(res, ddp, model, programs, cfgs, label, minimal=False, minimise_budget=250, max_report=3):
+    """runs every program under every config, compares with the evaluator, reports disagreements
+    (minimised, with the program as replay).  Returns counters."""
+    from collections import Counter
+    stats = Counter()
+    if not programs:
+        return stats
+    mo = model_eval(model, programs)
+    rs = run_programs(ddp, programs, cfgs, minimal=minimal)
+    reported = 0
+    for p, (o, so), rrs in zip(programs, mo, rs):
+        stats["model:" + o.split(":")[0]] += 1
+        if o.startswith("stuck") or o.startswith("model-error"):
+            # the evaluator has no rule for a program the generator believes well-typed: the oracle
+            # is incomplete there, not the compiler wrong; counted, never reported as a violation
+            stats["oracle-incomplete"] += 1
+        for cfg, rr in zip(cfgs, rrs):
+            res.evaluations += 1
+            stats["impl:" + rr.cls] += 1
+            if rr.cls == "compile-rejected":
+                stats["generator-ill-typed"] += 1
+                continue
+            d = compare(o, so, rr)
+            if d is None and expected_class(o) is not None and rr.cls in ("compile-internal-error", "link-error", "sanitizer", "signal", "timeout"):
+                d = "the program ended as " + rr.cls
+            if d is None:
+                res.nontrivial("%s:%s:%d" % (label, o.split(":")[0], len(so)))
+                continue
+            if reported >= max_report:
+                stats["further-disagreements"] += 1
+                continue
+            reported += 1
+            key = d[:25]
+            small = minimise(p, lambda q: (disagreement(ddp, model, q, cfg, minimal=minimal) or "")[:25] == key, budget=minimise_budget)
+            (o2, so2), = model_eval(model, [small])
+            rr2 = run_programs(ddp, [small], [cfg], minimal=minimal)[0][0]
+            res.violation("%s:%s:%s" % (label, cfg.name(), _fingerprint(small)),
+                          "compiled program and evaluation rules disagree (%s): %s" % (cfg.name(), d),
+                          {"program": gen.pp_program(small, minimal=minimal), "sexpr": gen.sx_program(small), "config": cfg.name(),
+                           "minimal_parentheses": minimal, "model": {"outcome": o2, "stdout": so2},
+                           "implementation": rr2.as_dict(), "original_program": gen.pp_program(p, minimal=minimal)})
+    return stats
+
+
+def report_broken(res, broken, hint=""):
+    for bk in broken:
+        res.violation("obligation:" + bk["name"], "proof obligation no longer checks: %s%s" % (bk["name"], hint),
+                      {"theorem": bk["name"], "detail": bk["detail"], "kind": "broken-obligation"}, has_input=False)
+
+
+def replay(rp):
+    """re-run one recorded program (source text + s-expression) against the current tree"""
+    from .corr import build_model
+    model = build_model()
+    ddp = pipeline.build()
+    line = "eval %d %s" % (FUEL, rp["sexpr"].encode().hex())
+    a = run_lines(model, [line])[0].split(" ")
+    o = " ".join(a[:-1]) if len(a) > 1 else a[0]
+    so = bytes.fromhex(a[-1]).decode("utf-8", "replace") if len(a) > 1 else ""
+    name = rp.get("config", "O1")
+    cfg = pipeline.Config(opt=int(name[1]), listdefs_link="-nolist" not in name, asan="-asan" in name)
+    rr = pipeline.compile_run(ddp, {"main.ddp": rp["program"]}, cfg)
+    d = compare(o, so, rr)
+    print("evaluation rules: %s %r" % (o, so[-300:]))
+    print("compiled program (%s): %s exit=%s %r %s" % (cfg.name(), rr.cls, rr.exit, rr.stdout[-300:], rr.stderr[-200:]))
+    if d:
+        print("VIOLATION property=%s replay=%s" % (rp.get("property", "?"), rp.get("_path", "")))
+        print("still disagrees: " + d)
+        return 1
+    print("OK the recorded program now behaves as the evaluation rules prescribe")
+    return 0
